@@ -283,6 +283,11 @@ def _check_identifier(s: str | None, optional: bool) -> bool:
     if not s.isidentifier():
         raise ValueError(f"'{s}' is not a valid identifier")
 
+    if re.fullmatch(r"_[0-9]+", s):
+        # see "Reserved Identifiers" in the design documentation: such a name
+        # would be taken for an index placeholder in index lambdas
+        raise ValueError(f"'{s}' is a reserved identifier")
+
     return True
 
 
